@@ -174,6 +174,7 @@ type Bounds struct {
 	// Opaque records values whose arithmetic may wrap in a narrow type (reported by rule R2).
 	Opaque map[ssa.Value]string
 	stable [][]ssa.Value
+	summ   map[*ssa.Function]map[int]int64 // predicate summaries, private to this analysis (no global state)
 }
 
 func NewBounds(fn *ssa.Function, intBits int) *Bounds {
@@ -281,6 +282,11 @@ func (b *Bounds) zoneAt(blk *ssa.BasicBlock) *Zone {
 func (b *Bounds) zoneBefore(blk *ssa.BasicBlock, before ssa.Instruction) *Zone {
 	if z, ok := b.zonesAt[before]; ok {
 		return z
+	}
+	// keep only the most recent zone: a zone is an n*n matrix and a function can have hundreds of
+	// obligation points
+	for k := range b.zonesAt {
+		delete(b.zonesAt, k)
 	}
 	z := newZone()
 	fn := b.Fn
@@ -1091,13 +1097,11 @@ func (b *Bounds) ProveLEConst(blk *ssa.BasicBlock, v ssa.Value, c int64) bool {
 // Predicate summaries: for a module function f(..., p []byte|string, ...) bool, the least length
 // of p on every return that may yield true ("f(p) true implies len(p) >= k").
 
-var predSummaryCache = map[*ssa.Function]map[int]int64{}
-
-func predicateSummary(f *ssa.Function, intBits int, depth int) map[int]int64 {
-	if s, ok := predSummaryCache[f]; ok {
+func predicateSummary(f *ssa.Function, intBits int, depth int, cache map[*ssa.Function]map[int]int64) map[int]int64 {
+	if s, ok := cache[f]; ok {
 		return s
 	}
-	predSummaryCache[f] = nil // recursion guard
+	cache[f] = nil // recursion guard
 	if f == nil || len(f.Blocks) == 0 || depth > 2 || f.Signature.Results().Len() != 1 {
 		return nil
 	}
@@ -1105,6 +1109,7 @@ func predicateSummary(f *ssa.Function, intBits int, depth int) map[int]int64 {
 		return nil
 	}
 	bd := NewBounds(f, intBits)
+	bd.summ = cache
 	out := map[int]int64{}
 	for pi, p := range f.Params {
 		lt, _, ok := lenTerm(p)
@@ -1133,7 +1138,7 @@ func predicateSummary(f *ssa.Function, intBits int, depth int) map[int]int64 {
 			out[pi] = min
 		}
 	}
-	predSummaryCache[f] = out
+	cache[f] = out
 	return out
 }
 
@@ -1158,7 +1163,10 @@ func (b *Bounds) predicateFacts(z *Zone, cond ssa.Value, truth bool) {
 	if f == nil || f == b.Fn {
 		return
 	}
-	sum := predicateSummary(f, b.IntBits, 0)
+	if b.summ == nil {
+		b.summ = map[*ssa.Function]map[int]int64{}
+	}
+	sum := predicateSummary(f, b.IntBits, 0, b.summ)
 	for pi, k := range sum {
 		if pi < len(c.Call.Args) {
 			if lt, off, ok := lenTerm(c.Call.Args[pi]); ok {
